@@ -130,6 +130,8 @@ def get_intersecting_periods(low, high, period="day"):
 
 def sanitize_date(date_string):
     date_string = RE_SANITIZE_SKIP.sub(" ", date_string)
+    # normalize whitespace first: the patterns below expect single spaces
+    date_string = sanitize_spaces(date_string)
     date_string = RE_SANITIZE_RUSSIAN.sub(
         r"\1 ", date_string
     )  # remove 'г.' (Russian for year) but not in words
